@@ -84,7 +84,7 @@ T_CG = 'pv/callgraph.py name/attribute based call resolution (dynamic dispatch t
 T_TY = 'pv/tyeng.py structural type inference (annotations in penman/types.py are taken as given)'
 T_DOC = 'the documented behaviour transcribed in spec/*.json (docs/notation.rst, docs/api, command-line help)'
 
-_p('C01', ['R20', 'R8g', 'R8f', 'R8d', 'R8e', 'R45', 'R23lex'],
+_p('C01', ['R20', 'R8g', 'R8f', 'R8d', 'R8e', 'R45', 'R23lex', 'R69', 'R19', 'R70'],
    'option-taint abstract interpretation of the formatter; regex automata for the adjacency of written pieces',
    'R20: in penman/_format.py the values of indent and compact can reach only whitespace pieces (taint analysis over every '
    'string the formatter concatenates or joins); content, order and presence of the other pieces do not depend on them. R8g: '
@@ -97,7 +97,7 @@ _p('C01', ['R20', 'R8g', 'R8f', 'R8d', 'R8e', 'R45', 'R23lex'],
    'strings that are not grammar-valid are outside the statement. The parser side is covered at token-kind level by C07.',
    'Exact decisions on regex languages and on the dataflow of two option values; a set of necessary conditions, not a proof of the round trip.',
    [TRUST_RE, 'pv/rx.py', T_CFG])
-_p('C02', ['R1', 'R36', 'R49', 'R28', 'R29', 'R5', 'R12', 'R64', 'R15', 'R14'],
+_p('C02', ['R1', 'R36', 'R49', 'R28', 'R29', 'R5', 'R12', 'R64', 'R15', 'R14', 'R58'],
    'abstract interpretation of two parallel lists; must-pass-through / exactly-once path checks on CFGs; propositional equivalence of sibling predicates',
    'R1: _interpret_node updates the triple list and the epidata list with the same operation in the same order on every path '
    '(so triples[i] and epidata[i] stay in step) and attaches POP to the last epidata entry of the nested node. R36: exactly one '
@@ -110,7 +110,7 @@ _p('C02', ['R1', 'R36', 'R49', 'R28', 'R29', 'R5', 'R12', 'R64', 'R15', 'R14'],
    'search in layout.configure) is not decided.',
    'Path and pairing facts that hold on every CFG path of the anchored functions; necessary conditions of the round trip.',
    [T_CFG, T_CG])
-_p('C03', ['R4', 'R50', 'R51', 'R12', 'R28', 'R29', 'R64', 'R67', 'R14'],
+_p('C03', ['R4', 'R50', 'R51', 'R12', 'R28', 'R29', 'R64', 'R67', 'R14', 'R58'],
    'structural type inference + truthiness-context lint; regex language intersection on model role tables; must-pass-through on the node map',
    'R4: no value typed as a constant (target, concept, tree atom) is tested for truthiness anywhere on the encode/decode paths, '
    'so 0, 0.0 and "" are never dropped. R50: only variables become keys of the node map. R51: the alignment of a quoted atom '
@@ -122,7 +122,7 @@ _p('C03', ['R4', 'R50', 'R51', 'R12', 'R28', 'R29', 'R64', 'R67', 'R14'],
    'of layout.configure, see C06) are not decided.',
    'Type-based lint with zero tolerated sites, an exact language decision, and a path check; necessary conditions only.',
    [T_TY, T_CFG, TRUST_RE])
-_p('C04', ['R5', 'R1b', 'R8h', 'R11', 'R49', 'R51', 'R58', 'R29', 'R64', 'R6'],
+_p('C04', ['R5', 'R1b', 'R8h', 'R11', 'R49', 'R51', 'R58', 'R29', 'R64', 'R6', 'R70'],
    'call-graph reachability + class-override scan; typed lookup lint; regex alphabets; path conditions',
    'R5: every deinversion in interpretation goes through Model.deinvert, the hook NoOpModel overrides. R1b: a node without a '
    'concept gets (var, :instance, None) inserted at position 0, exactly when no "/" branch was seen. R58: the variable set used '
@@ -145,7 +145,7 @@ _p('C05', ['R26', 'R27', 'R47', 'R23model', 'R14', 'R50'],
    'That configure of the reordered triples yields the same graph content (needs C06) is not decided.',
    'Exact symbolic facts on the anchored functions plus a whole-program mutation analysis; necessary conditions.',
    [T_CFG, T_TY, 'pv/effects.py Andersen-style points-to with type-pruned flow', TRUST_RE])
-_p('C07', ['R19', 'R9', 'R16', 'R43', 'R18', 'R35', 'R10', 'R6', 'R23lex', 'R8a', 'R8b', 'R8c', 'R8d', 'R8e', 'R8f'],
+_p('C07', ['R19', 'R9', 'R16', 'R43', 'R18', 'R35', 'R10', 'R6', 'R23lex', 'R8a', 'R8b', 'R8c', 'R8d', 'R8e', 'R8f', 'R69'],
    'token-kind abstract interpretation of the parser against a reference recogniser (bounded); typestate dataflow; call-result-use lint',
    'R19: the parser functions and TokenIterator are interpreted over token *kinds* (all sequences up to length 5, nesting 2 in '
    'the quick tier; 8 and 3 in the thorough tier) and acceptance, tree skeleton and the index of the failing token are compared '
@@ -166,7 +166,7 @@ _p('C09', ['R6', 'R37', 'R12', 'R45', 'R8d', 'R8e', 'R23lex'],
    'survives an empty sequence. R12: the model is forwarded. R45: metadata is written in the form the comment scanner reads back.',
    'Equality of the decoded graphs across containers for every text is not decided; file iteration semantics of CPython are trusted.',
    'Exact language decision and call-shape facts; necessary conditions.', [TRUST_RE, T_CG, 'text-mode file iteration splits at LF, CRLF, CR (universal newlines)'])
-_p('C10', ['R11', 'R30', 'R31', 'R52'],
+_p('C10', ['R11', 'R30', 'R31', 'R52', 'R70'],
    'typed lookup lint; loop-shape path checks; may-analysis of freshness',
    'R30: _map_vars yields exactly one output branch per input branch, passes roles through, rewrites a target only by recursion '
    'into nested nodes or by the variable map on non-concept atoms, keeps the alignment suffix, and returns the output list (never '
@@ -185,7 +185,7 @@ _p('C11', ['R31', 'R3', 'R38', 'R33', 'R36', 'R44', 'R62', 'R63', 'R15'],
    'after a non-matching entry. R36/R44: the layout diagnostics reify_edges relies on.',
    'That dereify(reify(g)) equals g down to the text is not decided.',
    'Dataflow and path facts; necessary conditions.', [T_CFG, T_CG])
-_p('C12', ['R2', 'R3', 'R31', 'R14', 'R53', 'R24', 'R33', 'R63', 'R65', 'R66', 'R32', 'R15'],
+_p('C12', ['R2', 'R3', 'R31', 'R14', 'R53', 'R24', 'R33', 'R63', 'R65', 'R66', 'R32', 'R15', 'R38'],
    'typed partial-map access lint with dominating guards; pipeline order on CFG paths; selection-predicate equivalence',
    'R2: Graph.epidata is treated as a partial map everywhere (every keyed read is guarded, uses .get, or is total by '
    'construction; defect F9). R3: every transformation passes top= (defect F12). R53: configure drops superfluous POPs before '
@@ -246,7 +246,7 @@ _p('C17', ['R14', 'R13', 'R15', 'R60', 'R61'],
    'Determinism across processes beyond hash-order effects (e.g. random_order by design) is not decided.',
    'A sound-by-construction may-analysis (over-approximate flow, so a pass means no mutation path exists in the model) plus lints.',
    ['pv/effects.py (heap model: one object per allocation site and constructor context; strings/numbers carry no objects)', T_CG, T_TY])
-_p('C19', ['R10', 'R9', 'R41', 'R16', 'R56', 'R37', 'R18', 'R59', 'R8d', 'R8e', 'R6', 'R60', 'R61', 'R23lex'],
+_p('C19', ['R10', 'R9', 'R41', 'R16', 'R56', 'R37', 'R18', 'R59', 'R8d', 'R8e', 'R6', 'R60', 'R61', 'R23lex', 'R69'],
    'token-class coverage via reaching definitions; regex language decisions on TRIPLE_RE; output-shape check of the writer',
    'R56: format_triples writes role(source, target) per triple joined by " ^" and LF or space. R41: the writer strips the leading '
    'colon and the reader/Graph restores it. R10: every token class of TRIPLE_RE is handled by _parse_triple and STRING is accepted '
